@@ -96,6 +96,10 @@ def pick_target(rng, pv, texts, tries=12, min_len=2, max_len=18, states=("plain"
         # does the range jump over deleted text (then only the accepted view contains it)?
         i0, i1 = pv.chars.index(seg[0]), pv.chars.index(seg[-1])
         over_del = any(c["state"] == "del" for c in pv.chars[i0:i1 + 1])
+        if over_del and cr != 0:
+            # the raw view cannot contain the real occurrence (deleted text lies inside it): a raw hit would be
+            # annotation text (a comment that happens to contain the same letters)
+            continue
         return {"si": pv.si, "pi": pv.pi, "a": a, "b": b, "target": target, "in_raw": cr == 1, "over_del": over_del,
                 "state": seg[0]["state"], "rid": seg[0]["rid"], "at_para_start": a == 0, "at_para_end": b == len(acc),
                 "crosses_runs": len({c["run"] for c in seg}) > 1,
@@ -192,7 +196,8 @@ def pick_cross_ins_any(rng, pv, texts):
         target = "".join(c["c"] for c in seg)
         if not target.strip() or target != target.strip():
             continue
-        if count_occ(texts["clean"], target) != 1 or count_occ(texts["raw"], target) > 1:
+        if count_occ(texts["clean"], target) != 1 or count_occ(texts["raw"], target) != 0:
+            # (wrappers of the insertion lie inside the real occurrence in the raw view: a raw hit would be annotation text)
             continue
         if count_occ(ws_norm(texts["clean"]), ws_norm(target)) != 1 or count_occ(fuzzy_norm(texts["clean"]), fuzzy_norm(target)) != 1:
             continue
@@ -480,6 +485,8 @@ def _range_edit(rng, pv, texts, a, b, word, kind=None):
         return None
     kind = kind or rng.choice(KINDS_C02)
     i0, i1 = pv.chars.index(seg[0]), pv.chars.index(seg[-1])
+    if any(c["state"] == "del" for c in pv.chars[i0:i1 + 1]) and count_occ(texts["raw"], target) != 0:
+        return None     # a raw hit could only be annotation text
     return {"si": pv.si, "pi": pv.pi, "a": a, "b": b, "target": target, "kind": kind, "new": new_text_for(rng, target, kind, word),
             "comment": None, "locatable": True, "in_raw": count_occ(texts["raw"], target) == 1,
             "over_del": any(c["state"] == "del" for c in pv.chars[i0:i1 + 1])}
